@@ -540,6 +540,37 @@ pub fn run_request_key_stats(f: &[&str]) -> String {
     format!("requests={} distinct={} wellformed16={}", n, sorted.len(), ok16)
 }
 
+/// CB id urihex subprotos extra -> M: CB id authority|none path|none key extra(lower-case names) subprotos
+fn run_builder(f: &[&str]) -> (String, String) {
+    let uri_s = String::from_utf8(unhex(f[2])).unwrap_or_default();
+    let uri: http::Uri = match uri_s.parse() {
+        Ok(u) => u,
+        Err(_) => return (f.join(" "), "bad-case:uri".into()),
+    };
+    let auth = uri.authority().map(|a| hex(a.as_str().as_bytes())).unwrap_or_else(|| "none".into());
+    let path = uri.path_and_query().map(|p| hex(p.as_str().as_bytes())).unwrap_or_else(|| "none".into());
+    let mut b = ClientRequestBuilder::new(uri);
+    let extra = headers_of(f[4]);
+    for (n, v) in &extra {
+        b = b.with_header(String::from_utf8_lossy(n).to_string(), String::from_utf8_lossy(v).to_string());
+    }
+    for sp in list(f[3]) {
+        b = b.with_sub_protocol(String::from_utf8_lossy(&unhex(sp)).to_string());
+    }
+    let lower: Vec<(Vec<u8>, Vec<u8>)> = extra.iter().map(|(n, v)| (n.to_ascii_lowercase(), v.clone())).collect();
+    let req = match b.into_client_request() {
+        Ok(r) => r,
+        Err(e) => return (format!("CB {} {} {} - {} {}", f[1], auth, path, headers_s(lower.iter().map(|(n, v)| (&n[..], &v[..]))), f[3]), format!("bad-case:{}", error_s(&e))),
+    };
+    let key = req.headers().get("sec-websocket-key").map(|k| hex(k.as_bytes())).unwrap_or_else(|| "-".into());
+    let m = format!("CB {} {} {} {} {} {}", f[1], auth, path, key, headers_s(lower.iter().map(|(n, v)| (&n[..], &v[..]))), f[3]);
+    let t = match generate_request(req) {
+        Ok((bytes, k)) => format!("ok:{}:{}", hex(&bytes), hex(k.as_bytes())),
+        Err(e) => error_s(&e),
+    };
+    (m, t)
+}
+
 pub fn run(kind: &str, f: &[&str]) -> Option<(String, String)> {
     let line = f.join(" ");
     Some(match kind {
@@ -549,6 +580,7 @@ pub fn run(kind: &str, f: &[&str]) -> Option<(String, String)> {
         "URI" => run_uri(f),
         "SD" => run_server_decide(f),
         "GR" => run_generate_request(f),
+        "CB" => run_builder(f),
         "TP" => run_try_parse(f),
         "AC" => (line, "model-only".into()),
         _ => return None,
